@@ -44,17 +44,45 @@ C02Failed(e) ==
         \cup {c \in {"C02.around_estimate"} : e.conf.kind = "two" /\ ~(LeKN(Lo(e), e.n, e.k) /\ GeKN(Hi(e), e.n, e.k))})
 
 \* populations beyond 2^32: n = a 2^p, k = b 2^q with 10 <= k <= n - 10 (every method admits them)
-BigND(e) == Dy(BigOfInt(e.nbig.a), e.nbig.p)
+BigND(e) == IF "nplus" \in DOMAIN e THEN DyAdd(Dy(BigOfInt(e.nbig.a), e.nbig.p), DyOfInt(e.nplus)) ELSE Dy(BigOfInt(e.nbig.a), e.nbig.p)
 BigKD(e) == IF "kminus" \in DOMAIN e THEN DySub(BigND(e), DyOfInt(e.kminus)) ELSE Dy(BigOfInt(e.kbig.a), e.kbig.p)
+\* the documented domain, decided on the integer counts
+BigDomain(e) ==
+    LET N == BigND(e)  K == BigKD(e)  lim == DyOfInt(IF Method(e) = "wald" THEN 10 ELSE 2) IN
+    IF DyLt(N, K) THEN "InvalidSuccesses"
+    ELSE IF DyLt(K, lim) THEN "TooFewSuccesses"
+    ELSE IF DyLt(DySub(N, K), lim) THEN "TooFewFailures" ELSE "ok"
 BigFailed(e) ==
+    IF e.out.tag = "panic" THEN {"C02.no_panic"}
+    ELSE IF e.out.tag = "err" THEN {c \in {"C02.domain"} : e.out.variant # BigDomain(e)}
+    ELSE IF BigDomain(e) # "ok" THEN {"C02.domain"}
+    ELSE {c \in {"C02.shape"} : ~ShapeOK(e.out.iv, e.conf.kind)}
+         \cup {c \in {"C02.in01"} : ~(IsFin(e.out.iv.lo) /\ IsFin(e.out.iv.hi) /\ DyLe(Lo(e), Hi(e)) /\ In01(Lo(e)) /\ In01(Hi(e)))}
+         \* (at the edge of the domain of a population beyond 2^53 both roots lie within 2^-52 of 0 or 1, far inside the
+         \*  resolution D of the root judge: those events decide the domain, the shape and the range only)
+         \cup {c \in {"C02.root_lo"} : "nplus" \notin DOMAIN e /\ HasLoB(e) /\ ~BoundOKD(Method(e), BigND(e), BigKD(e), "lo", Lo(e), e.conf.kind, e.li)}
+         \cup {c \in {"C02.root_hi"} : "nplus" \notin DOMAIN e /\ HasHiB(e) /\ ~BoundOKD(Method(e), BigND(e), BigKD(e), "hi", Hi(e), e.conf.kind, e.li)}
+BigClauses(e) ==
+    {"C02.no_panic", "C02.population_beyond_32_bits"}
+    \cup (IF "nplus" \in DOMAIN e THEN {"C02.population_beyond_53_bits." \o BigDomain(e)} ELSE {})
+    \cup (IF OkIv(e) THEN {"C02.shape", "C02.in01"} \cup (IF HasLoB(e) /\ "nplus" \notin DOMAIN e THEN {"C02.root_lo"} ELSE {})
+                                           \cup (IF HasHiB(e) /\ "nplus" \notin DOMAIN e THEN {"C02.root_hi"} ELSE {})
+          ELSE {})
+
+\* confidence levels far outside the grid: the z^2 enclosure comes from the extreme-level rows
+XKind(e) == IF e.conf.kind = "two" THEN "two" ELSE "one"
+XZ2(e) == LET m == MagEnc(ZXRow(XKind(e), e.xi)) IN <<DySq(m[1]), DySq(m[2])>>
+XFailed(e) ==
     IF e.out.tag = "panic" THEN {"C02.no_panic"}
     ELSE IF e.out.tag = "err" THEN {"C02.domain"}
     ELSE {c \in {"C02.shape"} : ~ShapeOK(e.out.iv, e.conf.kind)}
-         \cup {c \in {"C02.in01"} : ~(IsFin(e.out.iv.lo) /\ IsFin(e.out.iv.hi) /\ DyLe(Lo(e), Hi(e)) /\ In01(Lo(e)) /\ In01(Hi(e)))}
-         \cup {c \in {"C02.root_lo"} : HasLoB(e) /\ ~BoundOKD(Method(e), BigND(e), BigKD(e), "lo", Lo(e), e.conf.kind, e.li)}
-         \cup {c \in {"C02.root_hi"} : HasHiB(e) /\ ~BoundOKD(Method(e), BigND(e), BigKD(e), "hi", Hi(e), e.conf.kind, e.li)}
-BigClauses(e) ==
-    {"C02.no_panic", "C02.population_beyond_32_bits"}
+         \cup {c \in {"C02.level_echo"} : e.confv.level.b # XLevelBits(e.xi) \/ e.confv.kind # e.conf.kind}
+         \cup {c \in {"C02.in01"} : ~(IsFin(e.out.iv.lo) /\ IsFin(e.out.iv.hi) /\ DyLe(Lo(e), Hi(e))
+                                      /\ (Method(e) = "wilson" => In01(Lo(e)) /\ In01(Hi(e))))}
+         \cup {c \in {"C02.root_lo"} : HasLoB(e) /\ ~BoundOKZ(Method(e), e.n, e.k, "lo", Lo(e), ZXRow(XKind(e), e.xi).sg, XZ2(e))}
+         \cup {c \in {"C02.root_hi"} : HasHiB(e) /\ ~BoundOKZ(Method(e), e.n, e.k, "hi", Hi(e), ZXRow(XKind(e), e.xi).sg, XZ2(e))}
+XClauses(e) ==
+    {"C02.no_panic", "C02.extreme_level", "C02.extreme_level." \o e.conf.kind}
     \cup (IF OkIv(e) THEN {"C02.shape", "C02.in01"} \cup (IF HasLoB(e) THEN {"C02.root_lo"} ELSE {}) \cup (IF HasHiB(e) THEN {"C02.root_hi"} ELSE {})
           ELSE {})
 
@@ -138,8 +166,9 @@ Next ==
          rows0 == IF e.first THEN EmptyRows
                   ELSE IF e.rowstart THEN [rows EXCEPT ![e.conf.kind] = <<>>] ELSE rows
          prev0 == IF e.rowstart THEN <<>> ELSE prev
-         big   == e.op = "prop.big"
-         f02   == (IF big THEN (IF IsRef(e) THEN BigFailed(e) ELSE {}) ELSE C02Failed(e))
+         xl    == e.op = "prop.xlev"
+         big   == e.op = "prop.big" \/ xl
+         f02   == (IF xl THEN (IF IsRef(e) THEN XFailed(e) ELSE {}) ELSE IF big THEN (IF IsRef(e) THEN BigFailed(e) ELSE {}) ELSE C02Failed(e))
                   \cup {c \in {"C02.front_end"} : ~IsRef(e) /\ (big \/ ~RatioZero(e)) /\ ref # <<>> /\ ~SameOut(e.out, ref)}
          \* the laws of C17 are established on the rows of ci_wilson / ci_z_normal; the other entry points
          \* (the alias `ci`, Stats::ci, ci_true, ...) inherit them by returning the same interval
@@ -151,7 +180,7 @@ Next ==
                   ELSE {}
          f     == f02 \cup f17
                   \cup {c \in {"C02.history_independent", "C17.history_independent"} : "out_fresh" \in DOMAIN e /\ ~SameOut(e.out, e.out_fresh)}
-         cs    == IF big THEN BigClauses(e) \cup (IF ~IsRef(e) THEN {"C02.front_end", "C17.entry_points_agree"} ELSE {}) ELSE
+         cs    == IF big THEN (IF xl THEN XClauses(e) ELSE BigClauses(e)) \cup (IF ~IsRef(e) THEN {"C02.front_end", "C17.entry_points_agree"} ELSE {}) ELSE
                   {"C02.domain", "C02.no_panic", "C02.domain." \o PropDomain(Method(e), e.n, e.k) \o "." \o Method(e)}
                   \cup (IF OkIv(e) THEN {"C02.shape", "C02.in01", "C02.level_echo", "C02.method." \o Method(e),
                                           "C02.kind." \o e.conf.kind}
